@@ -24,8 +24,8 @@ ASSUMPTIONS = [
     "monotonicity law evaluated on trees without negated rows (a negated row is meant to be dropped under cant_delete)",
     "juniper 'inactive:' rows are not generated",
 ]
-FLOORS = {"quick": {"filters_compared": 3000, "strict_raises_agreed": 300, "strict_passes_agreed": 100, "monotone_checked": 1000, "idempotent_checked": 3000, "explicit_negated_rule_cases": 400},
-          "thorough": {"filters_compared": 100000, "strict_raises_agreed": 10000, "strict_passes_agreed": 3000, "monotone_checked": 30000, "idempotent_checked": 100000, "explicit_negated_rule_cases": 12000}}
+FLOORS = {"quick": {"filters_compared": 3000, "strict_raises_agreed": 300, "strict_passes_agreed": 100, "monotone_checked": 1000, "idempotent_checked": 3000, "explicit_negated_rule_cases": 400, "production_merges_checked": 1500},
+          "thorough": {"filters_compared": 100000, "strict_raises_agreed": 10000, "strict_passes_agreed": 3000, "monotone_checked": 30000, "idempotent_checked": 100000, "explicit_negated_rule_cases": 12000, "production_merges_checked": 50000}}
 VENDORS = ["huawei", "cisco", "pc", "routeros", "juniper", "arista"]
 KNOWN_WINNER = "C06/children-rules-lost-when-global-or-negated-match-outranks-local"
 KNOWN_GLOBAL_MERGE = "C06/children-rules-lost-when-same-row-is-global-in-another-acl"
@@ -222,6 +222,28 @@ def check_case(seed, acc, negpair=False):
                 key = "C06/merged-acl-passes-less"
             acc.violation(key, WHAT.get(key, "the filter by two ACLs merged drops a line that one of them passes alone"),
                           dict(w, passed_A=res["A"], passed_B=res["B"], passed_merged=res["A+B"]))
+    # the production way of merging: RunGeneratorResult.acl_text() over generators whose ACL texts are indented differently
+    # (module-level constant vs triple-quoted string inside a method) must filter like the plain concatenation
+    if "A+B" in res and texts["A"].strip() and texts["B"].strip():
+        from annet.generators.result import RunGeneratorResult
+        from annet.types import GeneratorPartialResult
+        prng = random.Random(seed ^ 0x1D)
+        ia, ib = prng.choice([(0, 8), (8, 0), (4, 4), (0, 0), (2, 12)])
+
+        def ind(text, n):
+            return "\n" + "\n".join(" " * n + ln for ln in text.split("\n")) + "\n" + " " * n
+        rr = RunGeneratorResult()
+        for name, text, n in (("GenA", texts["A"], ia), ("GenB", texts["B"], ib)):
+            rr.add_partial(GeneratorPartialResult(name=name, tags=[], acl=ind(text, n), acl_rules=None, acl_safe="", acl_safe_rules=None,
+                                                  output="", config=None, safe_config=None, perf=None))
+        acc.count("production_merges_checked")
+        try:
+            got_p = plain(real_filter(rr.acl_text(), vname, t))
+        except Exception as e:
+            got_p = "EXC %s" % type(e).__name__
+        if got_p != res["A+B"]:
+            acc.violation("C06/production-merge-differs", "the ACL merged the production way (RunGeneratorResult.acl_text) filters differently from the concatenation of the two ACL texts",
+                          dict(w, indents=[ia, ib], got=got_p, expected=res["A+B"]))
     # text entry point
     if vname in ("huawei", "cisco", "arista", "pc") and "A" in res:
         from annet.annlib import filter_acl
